@@ -59,7 +59,14 @@ impl Angle {
 
         // general case: clone pi_radians for floating point buggery
         let pi_radians_copy = pi_radians;
-        let total_angle = pi_radians_copy * PI / divisor;
+        // scale first; when the product leaves the normal range (it overflows for |p| > 5.7e307 and
+        // loses digits once subnormal) divide first instead - the quotient, not p, bounds the angle
+        let scaled = pi_radians_copy * PI;
+        let total_angle = if scaled.is_normal() {
+            scaled / divisor
+        } else {
+            pi_radians_copy / divisor * PI
+        };
 
         // handle negative angles by adding full rotations
         let normalized_total = if total_angle < 0.0 {
